@@ -61,6 +61,41 @@ fn check_exact(c: &PairCase) -> CaseResult {
     pass(!(a.is_one() && b.is_one()) || jac, format!("exact{}{}", if jac { "/jacobian" } else { "/affine" }, if scalar_edge(&a) || scalar_edge(&b) { "/edge" } else { "" }))
 }
 
+/// P = a boundary point of G1 (sm9util::g1_edge_points) in the representation Z_P, Q = [a]P2 affine
+#[derive(Serialize, Deserialize, Hash, Debug, Clone)]
+pub struct EdgePair {
+    pub point: usize,
+    pub a: Hex,
+    pub zp: Hex,
+}
+
+fn check_exact_edge(c: &EdgePair) -> CaseResult {
+    let pr = r9::params();
+    let eps = g1_edge_points();
+    let (label, x, y) = &eps[c.point % eps.len()];
+    let a = from_be(&c.a) % &pr.n;
+    let mut zp = from_be(&c.zp) % pr.p;
+    if a.is_zero() {
+        return pass(false, "zero-scalar-skipped");
+    }
+    if zp.is_zero() {
+        zp = BigUint::one();
+    }
+    let p_ref = Some((r9::fp(x), r9::fp(y)));
+    let q_ref = r9::p2_mul(&a);
+    let (p_lib, q_lib) = (lib_g1(&p_ref, &zp), lib_g2(&q_ref, &fp2_one()));
+    let got = catch(|| hk::pairing(&q_lib, &p_lib)).map_err(|e| Fail { key: "entry=sm9_u256_pairing outcome=panic".into(), detail: format!("P = edge point {} a={:x}: {}", label, a, e) })?;
+    ensure!(f12_canonical(&got), "entry=sm9_u256_pairing outcome=non-canonical", "P = edge point {} a={:x}", label, a);
+    let want = r9::pairing(&p_ref, &q_ref);
+    if ref_f12(&got) != want {
+        return fail(
+            format!("entry=sm9_u256_pairing outcome=wrong-value{}", if zp.is_one() { "" } else { " input=jacobian" }),
+            format!("e(P, [{:x}]P2) with P = edge point {} x={:x} y={:x} Z_P={:x}:\nlibrary  {}\nGM/T 0044.1 {}", a, label, x, y, zp, hex::encode(&ref_f12(&got).bytes()[..96]), hex::encode(&want.bytes()[..96])),
+        );
+    }
+    pass(true, format!("exact/edge-point{}", if zp.is_one() { "/affine" } else { "/jacobian" }))
+}
+
 #[derive(Serialize, Deserialize, Hash, Debug, Clone)]
 pub struct Bilin {
     pub a: Hex,
@@ -129,7 +164,7 @@ fn zrep() -> impl Strategy<Value = (Hex, Hex, Hex)> {
 pub fn run(ctx: &Ctx) {
     let pr = r9::params();
     ctx.set_rule(
-        "cases are (a, b, Z_P, Z_Q): Q = [a]P2 and P = [b]P1 with a, b from {1..7, N-7..N-1, 2^i, uniform}, both points rewritten by the harness into Jacobian representations (Z = 1, random, purely imaginary for Q). \
+        "cases are (a, b, Z_P, Z_Q): Q = [a]P2 and P = [b]P1 with a, b from {1..7, N-7..N-1, 2^i, uniform}, both points rewritten by the harness into Jacobian representations (Z = 1, random, purely imaginary for Q); P also taken from the boundary points of G1 (coordinates next to 0, N, p, powers of two, special limb patterns). \
          Oracle 1 (exact): the 384-byte value of the library pairing equals the textbook R-ate pairing of the reference (affine Miller loop over Fp12 = Fp[w]/(w^12+2), final exponent (p^12-1)/N). Oracle 2 (inside the library, \
          more pairs): e([b]P1,[a]P2) == e(P1,P2)^(ab mod N) with the library's own scalar multiplications and exponentiation, e(P1,P2) != 1, g^N == 1. Annex value of e(P1, Ppub-s). Non-trivial: a, b not both 1, or a Jacobian input.",
     );
@@ -173,6 +208,15 @@ pub fn run(ctx: &Ctx) {
         }
         v
     }, check_exact);
+
+    ctx.listed("exact_edge_g1_points", "P a boundary point of G1 (x next to 0, N, p, 2^256-p, powers of two; Montgomery x with all-ones / zero limbs; y with a leading zero byte), affine and Jacobian, against Q = [a]P2", || {
+        let mut v = Vec::new();
+        for point in 0..g1_edge_points().len() {
+            v.push(EdgePair { point, a: gen::hex32(&BigUint::one()), zp: gen::hex32(&BigUint::one()) });
+            v.push(EdgePair { point, a: Hex(expand_bytes(point as u64 ^ 0xc12e, 32)), zp: Hex(expand_bytes(point as u64 ^ 0xc12f, 32)) });
+        }
+        v
+    }, check_exact_edge);
 
     ctx.generated("exact_generated", "proptest (a, b, Z_P, Z_Q): library pairing == reference pairing, all 384 bytes", ctx.tier.pick(1_500, 20_000), || {
         (scalar(), scalar(), zrep()).prop_map(|(a, b, (zp, zq0, zq1))| PairCase { a, b, zp, zq0, zq1 })
